@@ -22,6 +22,7 @@
                   (`honest_walk`, `processSection_honest`, `sectionLoop_honest`, `processPatchM_honest`);
   * `writeNow` (make writable, backup, write, permission callback — the common part of the direct write and of
     `DeferredWriter::finalize`: `writePatchedResult_direct`, `finalizeDeferred_eq`), `writeNow_shape` (its operations),
+    `removeNow` (one deferred removal: backup if due, then removal if the file is still there; `removeNow_trExt`),
     `ChmodLate` / `Late` (`late_walk`, `processSection_late`, `finalizeDeferred_late`, `processPatchM_late`),
     `ensureParentDirs_keeps`.
 -/
@@ -313,19 +314,157 @@ theorem doOp_run_ok {op : FsOp} {s : DState} {fs' : Fs} (hf : s.faultAt = none) 
     (doOp op).run s = (.ok (), { s with fs := fs', trace := s.trace ++ [op], opCount := s.opCount + 1 }) := by
   rw [doOp_run, hf, h]; simp
 
+/-- `ensure_parent_directories`, without the join point of the `do` block -/
+theorem ensureParentDirs_eq (p : Bytes) : ensureParentDirs p =
+    (if p.isEmpty = true then throw Exn.systemError else
+      forIn (dirPrefixes p) PUnit.unit (fun d (_ : PUnit) => (do
+          let s ← get
+          let _ ← tryOp (FsOp.mkdir (absPath s d)) fun x => x == Errno.eexist
+          pure (ForInStep.yield PUnit.unit) : DM (ForInStep PUnit)))) := by
+  unfold ensureParentDirs
+  split
+  · rfl
+  · simp
+
+theorem apply_mkdir_lookup {fs fs' : Fs} {a : Bytes} (h : fs.apply (.mkdir a) = .ok fs') {q : Bytes} {n : Node}
+    (hq : fs.lookup q = some n) : fs'.lookup q = some n := by
+  simp only [Fs.apply] at h
+  split at h
+  · cases h
+  · next hnone =>
+    split at h
+    · cases h
+    · cases h
+      have hqa : q ≠ a := by
+        rintro rfl
+        rw [hq] at hnone; simp at hnone
+      rw [Fs.lookup_set_ne _ _ _ _ hqa, hq]
+
+/-- the `mkdir` loop: only the tree, the trace and the operation counter change; the operations are `mkdir`s of the listed
+    directories; the only exception is `system_error`; whatever was in the tree is still there -/
+theorem mkdirLoop_shape (tol : Errno → Bool) (D : List Bytes) : ∀ (l : List Bytes), (∀ d ∈ l, d ∈ D) →
+    ∀ {s s' : DState} {r : Except Exn PUnit},
+    (forIn l PUnit.unit (fun d (_ : PUnit) => (do
+          let s ← get
+          let _ ← tryOp (FsOp.mkdir (absPath s d)) tol
+          pure (ForInStep.yield PUnit.unit) : DM (ForInStep PUnit)))).run s = (r, s') →
+    (∃ fs' t n, s' = { s with fs := fs', trace := t, opCount := n }) ∧
+    (∃ M, s'.trace = s.trace ++ M ∧ ∀ op ∈ M, ∃ d ∈ D, op = FsOp.mkdir (absPath s d)) ∧
+    (∀ e, r = .error e → e = .systemError) ∧
+    ∀ q n, s.fs.lookup q = some n → s'.fs.lookup q = some n
+  | [], _, s, s', r, h => by
+    rw [List.forIn_nil] at h; cases h
+    exact ⟨⟨_, _, _, rfl⟩, ⟨[], by simp, by simp⟩, fun e he => (by cases he), fun _ _ h => h⟩
+  | d :: l, hl, s, s', r, h => by
+    rw [List.forIn_cons, run_bind, run_bind, run_get] at h
+    simp only [] at h
+    rw [run_bind] at h
+    rcases ht : (tryOp (FsOp.mkdir (absPath s d)) tol).run s with ⟨r1, s1⟩
+    rw [ht] at h
+    rcases tryOp_cases ht with ⟨rfl, fs', hfs, rfl⟩ | ⟨hr1, rfl⟩
+    · simp only [run_pure] at h
+      obtain ⟨⟨a, b, c, e1⟩, ⟨M, t, hM⟩, herr, hkeep⟩ :=
+        mkdirLoop_shape tol D l (fun x hx => hl x (List.mem_cons_of_mem _ hx)) h
+      refine ⟨⟨a, b, c, e1⟩, ⟨FsOp.mkdir (absPath s d) :: M, ?_, ?_⟩, herr, fun q n hq => hkeep q n (apply_mkdir_lookup hfs hq)⟩
+      · rw [t]; simp
+      · intro op hop
+        rcases List.mem_cons.1 hop with rfl | hop
+        · exact ⟨d, hl d List.mem_cons_self, rfl⟩
+        · exact hM op hop
+    · rcases hr1 with rfl | rfl
+      · simp only [run_pure] at h
+        obtain ⟨⟨a, b, c, e1⟩, ⟨M, t, hM⟩, herr, hkeep⟩ :=
+          mkdirLoop_shape tol D l (fun x hx => hl x (List.mem_cons_of_mem _ hx)) h
+        exact ⟨⟨a, b, c, e1⟩, ⟨M, t, hM⟩, herr, hkeep⟩
+      · cases h
+        exact ⟨⟨_, _, _, rfl⟩, ⟨[], by simp, by simp⟩, fun e he => (by cases he; rfl), fun _ _ h => h⟩
+
+/-- `ensure_parent_directories p`: only the tree, the trace and the operation counter change; the operations are `mkdir`s of
+    directory prefixes of `p`; the only exception is `system_error`; whatever was in the tree is still there -/
+theorem ensureParentDirs_shape (p : Bytes) {s s' : DState} {r : Except Exn Unit} (h : (ensureParentDirs p).run s = (r, s')) :
+    (∃ fs' t n, s' = { s with fs := fs', trace := t, opCount := n }) ∧
+    (∃ M, s'.trace = s.trace ++ M ∧ ∀ op ∈ M, ∃ d ∈ dirPrefixes p, op = FsOp.mkdir (absPath s d)) ∧
+    (∀ e, r = .error e → e = .systemError) ∧
+    ∀ q n, s.fs.lookup q = some n → s'.fs.lookup q = some n := by
+  rw [ensureParentDirs_eq] at h
+  split at h
+  · cases h
+    exact ⟨⟨_, _, _, rfl⟩, ⟨[], by simp, by simp⟩, fun e he => (by cases he; rfl), fun _ _ h => h⟩
+  · exact mkdirLoop_shape _ (dirPrefixes p) (dirPrefixes p) (fun _ h => h) h
+
+/-- all the directories exist already (as whatever): `ensure_parent_directories` performs no operation -/
+theorem ensureParentDirs_run_exist (p : Bytes) (s : DState) (hp : p ≠ []) (hf : s.faultAt = none)
+    (hex : ∀ d ∈ dirPrefixes p, (s.fs.lookup (absPath s d)).isSome = true) :
+    (ensureParentDirs p).run s = (.ok (), { s with opCount := s.opCount + (dirPrefixes p).length }) := by
+  rw [ensureParentDirs_eq, if_neg (by simpa using hp)]
+  generalize dirPrefixes p = l at hex
+  induction l generalizing s with
+  | nil => rfl
+  | cons d l ih =>
+    rw [List.forIn_cons, run_bind, run_bind, run_get]
+    simp only []
+    have h1 : s.fs.apply (FsOp.mkdir (absPath s d)) = .error .eexist := by
+      simp only [Fs.apply, hex d List.mem_cons_self, ↓reduceIte]
+    have h2 : (tryOp (FsOp.mkdir (absPath s d)) fun x => x == Errno.eexist).run s =
+        (.ok false, { s with opCount := s.opCount + 1 }) := by
+      rw [tryOp_run, h1, if_neg (by rw [hf]; simp)]
+      simp
+    rw [run_bind, h2]
+    simp only [run_pure]
+    rw [ih { s with opCount := s.opCount + 1 } hf (fun d hd => hex d (List.mem_cons_of_mem _ hd))]
+    simp only [List.length_cons]
+    congr 2
+    omega
+
+/-- exactly one directory prefix, and it is missing: one `mkdir` -/
+theorem ensureParentDirs_run_one (p d : Bytes) (s : DState) (hp : p ≠ []) (hf : s.faultAt = none)
+    (hd : dirPrefixes p = [d]) (hnew : s.fs.lookup (absPath s d) = none)
+    (hpar : s.fs.dirExists (parentOf (absPath s d)) = true) :
+    (ensureParentDirs p).run s =
+      (.ok (), { s with fs := s.fs.set (absPath s d) (.dir (0o777 - (0o777 &&& s.fs.umask))),
+                        trace := s.trace ++ [.mkdir (absPath s d)], opCount := s.opCount + 1 }) := by
+  rw [ensureParentDirs_eq, if_neg (by simpa using hp), hd, List.forIn_cons, run_bind, run_bind, run_get]
+  simp only []
+  have h1 : s.fs.apply (FsOp.mkdir (absPath s d)) = .ok (s.fs.set (absPath s d) (.dir (0o777 - (0o777 &&& s.fs.umask)))) := by
+    simp only [Fs.apply, hnew, hpar]; rfl
+  have h2 : (tryOp (FsOp.mkdir (absPath s d)) fun x => x == Errno.eexist).run s =
+      (.ok true, { s with fs := s.fs.set (absPath s d) (.dir (0o777 - (0o777 &&& s.fs.umask))),
+                          trace := s.trace ++ [.mkdir (absPath s d)], opCount := s.opCount + 1 }) := by
+    rw [tryOp_run, h1, if_neg (by rw [hf]; simp)]
+  rw [run_bind, h2]
+  rfl
+
 theorem makeBackupFor_run (o : Options) (p : Bytes) (s : DState) :
     (makeBackupFor o p).run s =
       if s.backedUp.contains (backupName o p) = true then (.ok (), s)
-      else if (s.fs.stat (absPath s p)).isSome = true then
-        (doOp (.rename (absPath s p) (absPath s (backupName o p)))).run { s with backedUp := s.backedUp ++ [backupName o p] }
-      else (doOp (.creat (absPath s (backupName o p)))).run { s with backedUp := s.backedUp ++ [backupName o p] } := by
+      else match (ensureParentDirs (backupName o p)).run { s with backedUp := s.backedUp ++ [backupName o p] } with
+        | (.ok _, s1) =>
+          if (s1.fs.stat (absPath s1 p)).isSome = true then
+            (doOp (.rename (absPath s1 p) (absPath s1 (backupName o p)))).run s1
+          else (doOp (.creat (absPath s1 (backupName o p)))).run s1
+        | (.error e, s1) => (.error e, s1) := by
   unfold makeBackupFor opRename opCreat
   simp only [run_bind, run_get, run_ite, run_set, run_fsExists, run_pure]
-  have e1 : ∀ q, absPath { s with backedUp := s.backedUp ++ [backupName o p] } q = absPath s q := fun _ => rfl
-  simp only [e1]
   cases hc : s.backedUp.contains (backupName o p)
   · simp only [Bool.not_false, Bool.false_eq_true, ↓reduceIte]
+    rcases (ensureParentDirs (backupName o p)).run { s with backedUp := s.backedUp ++ [backupName o p] } with ⟨r, s1⟩
+    cases r <;> rfl
   · simp only [Bool.not_true, Bool.false_eq_true, ↓reduceIte]
+
+/-- `openRejects`, exactly: a later opening in the same run adds to the file (and creates it if it is gone), the first one
+    replaces what was there -/
+theorem openRejects_run (rej : Bytes) (s : DState) :
+    (openRejects rej).run s =
+      if s.rejWritten.contains rej = true then
+        (if (s.fs.stat (absPath s rej)).isSome = true then (.ok (), s) else (doOp (.creat (absPath s rej))).run s)
+      else (doOp (.creat (absPath s rej))).run { s with rejWritten := s.rejWritten ++ [rej] } := by
+  unfold openRejects opCreat
+  simp only [run_bind, run_get, run_ite, run_set, run_fsExists, run_pure]
+  cases hc : s.rejWritten.contains rej
+  · simp only [Bool.false_eq_true, ↓reduceIte]
+    rfl
+  · simp only [↓reduceIte]
+    cases (s.fs.stat (absPath s rej)).isSome <;> simp
 
 /-! ### the `op…` wrappers -/
 
@@ -625,9 +764,11 @@ theorem promptForFilepath_quiet : ∀ n, Quiet (promptForFilepath n)
     have ih := promptForFilepath_quiet n
     unfold promptForFilepath; spec_walk good_quiet
 
-/-- `makeBackupFor` in any `Good` specification that tolerates the bookkeeping and the two possible operations -/
+/-- `makeBackupFor` in any `Good` specification that tolerates the bookkeeping, the creation of the directories of the backup name and
+    the two possible operations -/
 theorem makeBackupFor_spec {R E} (g : Good R E) (o : Options) (p : Bytes)
     (hb : ∀ s bn, R s { s with backedUp := s.backedUp ++ [bn] })
+    (h0 : Spec R E (ensureParentDirs (backupName o p)))
     (h1 : ∀ a b, Spec R E (doOp (.rename a b))) (h2 : ∀ a, Spec R E (doOp (.creat a))) :
     Spec R E (makeBackupFor o p) := by
   constructor
@@ -636,28 +777,74 @@ theorem makeBackupFor_spec {R E} (g : Good R E) (o : Options) (p : Bytes)
     split at h
     · cases h; exact g.refl s
     · split at h
-      · exact g.trans (hb s _) ((h1 _ _).ok _ _ _ h)
-      · exact g.trans (hb s _) ((h2 _).ok _ _ _ h)
+      · next _ s1 h0' =>
+        have r1 := g.trans (hb s _) (h0.ok _ _ _ h0')
+        split at h
+        · exact g.trans r1 ((h1 _ _).ok _ _ _ h)
+        · exact g.trans r1 ((h2 _).ok _ _ _ h)
+      · cases h
   · intro s e s' h
     rw [makeBackupFor_run] at h
     split at h
     · cases h
     · split at h
-      · exact g.absorb (hb s _) ((h1 _ _).err _ _ _ h)
-      · exact g.absorb (hb s _) ((h2 _).err _ _ _ h)
+      · next _ s1 h0' =>
+        have r1 := g.trans (hb s _) (h0.ok _ _ _ h0')
+        split at h
+        · exact g.absorb r1 ((h1 _ _).err _ _ _ h)
+        · exact g.absorb r1 ((h2 _).err _ _ _ h)
+      · next e' s1 h0' =>
+        cases h
+        exact g.absorb (hb s _) (h0.err _ _ _ h0')
 
 theorem makeBackupFor_quiet (o : Options) (p : Bytes) : Quiet (makeBackupFor o p) :=
-  makeBackupFor_spec good_quiet o p (fun _ _ => QR.of_eq rfl rfl) (fun _ _ => Quiet.doOp _) (fun _ => Quiet.doOp _)
+  makeBackupFor_spec good_quiet o p (fun _ _ => QR.of_eq rfl rfl) (ensureParentDirs_quiet _) (fun _ _ => Quiet.doOp _)
+    (fun _ => Quiet.doOp _)
 
-theorem makeBackupFor_trExt {A : FsOp → Prop} (h1 : ∀ a b, A (.rename a b)) (h2 : ∀ a, A (.creat a)) (o : Options) (p : Bytes) :
-    TrExt A (makeBackupFor o p) :=
-  makeBackupFor_spec (good_ext A) o p (fun _ _ => ExtR.of_eq rfl) (fun _ _ => TrExt.doOp (h1 _ _)) (fun _ => TrExt.doOp (h2 _))
+theorem makeBackupFor_trExt {A : FsOp → Prop} (h0 : ∀ a, A (.mkdir a)) (h1 : ∀ a b, A (.rename a b)) (h2 : ∀ a, A (.creat a))
+    (o : Options) (p : Bytes) : TrExt A (makeBackupFor o p) :=
+  makeBackupFor_spec (good_ext A) o p (fun _ _ => ExtR.of_eq rfl) (ensureParentDirs_trExt h0 _) (fun _ _ => TrExt.doOp (h1 _ _))
+    (fun _ => TrExt.doOp (h2 _))
+
+/-- `openRejects` in any `Good` specification that tolerates the bookkeeping and the `creat` -/
+theorem openRejects_spec {R E} (g : Good R E) (rej : Bytes)
+    (hb : ∀ s x, R s { s with rejWritten := s.rejWritten ++ [x] })
+    (h2 : ∀ a, Spec R E (doOp (.creat a))) : Spec R E (openRejects rej) := by
+  constructor
+  · intro s a s' h
+    rw [openRejects_run] at h
+    split at h
+    · split at h
+      · cases h; exact g.refl s
+      · exact (h2 _).ok _ _ _ h
+    · exact g.trans (hb s _) ((h2 _).ok _ _ _ h)
+  · intro s e s' h
+    rw [openRejects_run] at h
+    split at h
+    · split at h
+      · cases h
+      · exact (h2 _).err _ _ _ h
+    · exact g.absorb (hb s _) ((h2 _).err _ _ _ h)
+
+theorem openRejects_quiet (rej : Bytes) : Quiet (openRejects rej) :=
+  openRejects_spec good_quiet rej (fun _ _ => QR.of_eq rfl rfl) (fun _ => Quiet.doOp _)
+theorem openRejects_trExt {A : FsOp → Prop} (h : ∀ p, A (.creat p)) (rej : Bytes) : TrExt A (openRejects rej) :=
+  openRejects_spec (good_ext A) rej (fun _ _ => ExtR.of_eq rfl) (fun _ => TrExt.doOp (h _))
+theorem writeRejects_quiet (rej b : Bytes) : Quiet (writeRejects rej b) := by
+  have := openRejects_quiet
+  unfold writeRejects; spec_walk good_quiet
+theorem writeRejects_trExt {A : FsOp → Prop} (h1 : ∀ p, A (.creat p)) (h2 : ∀ p b, A (.write p b)) (rej b : Bytes) :
+    TrExt A (writeRejects rej b) := by
+  have := openRejects_trExt h1
+  have := opWrite_trExt h2
+  unfold writeRejects; spec_walk (good_ext A)
 
 theorem makeWritable_quiet (perm : PermResult) (p : Bytes) : Quiet (makeWritable perm p) := by
   unfold makeWritable; spec_walk good_quiet
 
 macro_rules | `(tactic| spec_leaf $_) => `(tactic| with_reducible first
-  | exact promptForFilepath_quiet _ | exact makeBackupFor_quiet _ _ | exact makeWritable_quiet _ _)
+  | exact promptForFilepath_quiet _ | exact makeBackupFor_quiet _ _ | exact makeWritable_quiet _ _
+  | exact openRejects_quiet _ | exact writeRejects_quiet _ _)
 
 theorem writePatchedResult_quiet (o : Options) (p : Patch) (f : Bytes) (perm : PermResult) (sb : Bool) (c : Bytes) :
     Quiet (writePatchedResult o p f perm sb c) := by
@@ -792,6 +979,7 @@ macro_rules | `(tactic| quiet_leaf) => `(tactic| with_reducible first
   | exact guessFilepath_quiet _ _ | exact checkWithUser_quiet _ _
   | exact promptForFilepath_quiet _ | exact makeBackupFor_quiet _ _ | exact writePatchedResult_quiet _ _ _ _ _ _
   | exact makeWritable_quiet _ _
+  | exact openRejects_quiet _ | exact writeRejects_quiet _ _
   | exact finalizeDeferred_quiet _
   | exact Quiet.doOp _ | exact Quiet.tryOp _ _)
 
@@ -1126,17 +1314,40 @@ theorem writePatchedResult_direct (o : Options) (p : Patch) (out : Bytes) (perm 
   simp only [hc]
   cases sb <;> split <;> simp
 
+/-- the removal of the source of a git rename, once everything has been written: with a backup due the file is MOVED to its
+    backup name (and removed only if it is still there: its backup was made by an earlier section), else removed -/
+def removeNow (o : Options) (p : Bytes) (backup : Bool) : DM Unit :=
+  (if backup = true then makeBackupFor o p else pure ()) >>= fun _ =>
+  fsExists p >>= fun ex =>
+  if (!backup || ex) = true then removeFileAndEmptyParents p else pure ()
+
 theorem finalizeDeferred_eq (o : Options) :
     finalizeDeferred o = (do
       let s ← get
       for w in s.dWrites do
         ensureParentDirs w.dest
         writeNow o w.dest w.perm w.backup w.content w.newMode
-      for p in s.dRemovals do
-        if !(s.dWrites.any (·.dest == p)) then removeFileAndEmptyParents p) := by
-  unfold finalizeDeferred writeNow
-  congr; funext s; congr; funext w u
-  cases w.backup <;> simp
+      for e in s.dRemovals do
+        if !(s.dWrites.any (·.dest == e.1)) then removeNow o e.1 e.2) := by
+  unfold finalizeDeferred writeNow removeNow
+  congr; funext s; congr
+  · funext w u
+    cases w.backup <;> simp
+  · funext _; congr; funext e u
+    obtain ⟨p, b⟩ := e
+    cases b
+    · simp
+    · simp only [Bool.not_true, Bool.false_or, ↓reduceIte, bind_assoc]
+      split
+      · congr; funext _; congr; funext a
+        cases a <;> simp
+      · rfl
+
+theorem removeNow_trExt {A : FsOp → Prop} (h0 : ∀ a, A (.mkdir a)) (h1 : ∀ a b, A (.rename a b)) (h2 : ∀ a, A (.creat a))
+    (h3 : ∀ p, A (.unlink p)) (h4 : ∀ p, A (.rmdir p)) (o : Options) (p : Bytes) (b : Bool) : TrExt A (removeNow o p b) := by
+  have := makeBackupFor_trExt h0 h1 h2 o
+  have := removeFileAndEmptyParents_trExt h3 h4
+  unfold removeNow; spec_walk (good_ext A)
 
 theorem makeWritable_shape (perm : PermResult) (p : Bytes) {s s1 : DState} {r : Except Exn Unit}
     (h : (makeWritable perm p).run s = (r, s1)) :
@@ -1152,12 +1363,15 @@ theorem makeWritable_shape (perm : PermResult) (p : Bytes) {s s1 : DState} {r : 
     · cases h; exact ⟨rfl, rfl, [], by simp, Or.inl rfl, fun e he => by cases he⟩
   · cases h; exact ⟨rfl, rfl, [], by simp, Or.inl rfl, fun e he => by cases he⟩
 
+/-- the backup step: the `mkdir`s `M` of the directories of the backup name (a prefix like `bak/` may name a directory that does
+    not exist yet), then the backup operation `B` itself -/
 theorem backupStep_shape (o : Options) (sb : Bool) (p : Bytes) {s s1 : DState} {r : Except Exn Unit}
     (h : (if sb = true then makeBackupFor o p else pure ()).run s = (r, s1)) :
-    s1.cwd = s.cwd ∧ ∃ B, s1.trace = s.trace ++ B ∧
+    s1.cwd = s.cwd ∧ ∃ M B, s1.trace = s.trace ++ M ++ B ∧
+      (∀ op ∈ M, ∃ d ∈ dirPrefixes (backupName o p), op = FsOp.mkdir (absPath s d)) ∧
       (B = [] ∨ B = [FsOp.rename (absPath s p) (absPath s (backupName o p))] ∨ B = [FsOp.creat (absPath s (backupName o p))]) ∧
       (sb = true → s.backedUp.contains (backupName o p) = false → r = .ok () → B ≠ []) ∧
-      (sb = false ∨ s.backedUp.contains (backupName o p) = true → B = []) ∧
+      (sb = false ∨ s.backedUp.contains (backupName o p) = true → M = [] ∧ B = []) ∧
       (∀ e, r = .error e → e = .systemError ∧ B = []) := by
   split at h
   · next hsb =>
@@ -1165,22 +1379,39 @@ theorem backupStep_shape (o : Options) (sb : Bool) (p : Bytes) {s s1 : DState} {
     split at h
     · next hc =>
       cases h
-      exact ⟨rfl, [], by simp, Or.inl rfl, fun _ hn => (by rw [hc] at hn; cases hn), fun _ => rfl, fun e he => by cases he⟩
+      exact ⟨rfl, [], [], by simp, by simp, Or.inl rfl, fun _ hn => (by rw [hc] at hn; cases hn), fun _ => ⟨rfl, rfl⟩,
+        fun e he => by cases he⟩
     · next hc =>
       have hc' : ¬ (sb = false ∨ s.backedUp.contains (backupName o p) = true) := by
         rintro (h | h)
         · rw [hsb] at h; cases h
         · exact hc h
       split at h
-      · rcases doOp_cases h with ⟨rfl, fs', _, rfl⟩ | ⟨rfl, rfl⟩
-        · exact ⟨rfl, [_], rfl, Or.inr (Or.inl rfl), fun _ _ _ => by simp, fun h => absurd h hc', fun e he => by cases he⟩
-        · exact ⟨rfl, [], by simp, Or.inl rfl, fun _ _ he => (by cases he), fun _ => rfl, fun e he => by cases he; exact ⟨rfl, rfl⟩⟩
-      · rcases doOp_cases h with ⟨rfl, fs', _, rfl⟩ | ⟨rfl, rfl⟩
-        · exact ⟨rfl, [_], rfl, Or.inr (Or.inr rfl), fun _ _ _ => by simp, fun h => absurd h hc', fun e he => by cases he⟩
-        · exact ⟨rfl, [], by simp, Or.inl rfl, fun _ _ he => (by cases he), fun _ => rfl, fun e he => by cases he; exact ⟨rfl, rfl⟩⟩
+      · next _ s2 h0 =>
+        obtain ⟨⟨fs', t, n, rfl⟩, ⟨M, tM, hM⟩, -⟩ := ensureParentDirs_shape _ h0
+        have tM : t = s.trace ++ M := tM
+        have hM : ∀ op ∈ M, ∃ d ∈ dirPrefixes (backupName o p), op = FsOp.mkdir (absPath s d) := hM
+        split at h
+        · rcases doOp_cases h with ⟨rfl, fs2, _, rfl⟩ | ⟨rfl, rfl⟩
+          · exact ⟨rfl, M, [_], by show t ++ _ = _; rw [tM]; rfl, hM, Or.inr (Or.inl rfl), fun _ _ _ => by simp, fun h => absurd h hc',
+              fun e he => by cases he⟩
+          · exact ⟨rfl, M, [], by show t = _; rw [tM]; simp, hM, Or.inl rfl, fun _ _ he => (by cases he), fun h => absurd h hc',
+              fun e he => by cases he; exact ⟨rfl, rfl⟩⟩
+        · rcases doOp_cases h with ⟨rfl, fs2, _, rfl⟩ | ⟨rfl, rfl⟩
+          · exact ⟨rfl, M, [_], by show t ++ _ = _; rw [tM]; rfl, hM, Or.inr (Or.inr rfl), fun _ _ _ => by simp, fun h => absurd h hc',
+              fun e he => by cases he⟩
+          · exact ⟨rfl, M, [], by show t = _; rw [tM]; simp, hM, Or.inl rfl, fun _ _ he => (by cases he), fun h => absurd h hc',
+              fun e he => by cases he; exact ⟨rfl, rfl⟩⟩
+      · next e s2 h0 =>
+        cases h
+        obtain ⟨⟨fs', t, n, rfl⟩, ⟨M, tM, hM⟩, herr, -⟩ := ensureParentDirs_shape _ h0
+        have tM : t = s.trace ++ M := tM
+        have hM : ∀ op ∈ M, ∃ d ∈ dirPrefixes (backupName o p), op = FsOp.mkdir (absPath s d) := hM
+        exact ⟨rfl, M, [], by show t = _; rw [tM]; simp, hM, Or.inl rfl, fun _ _ he => (by cases he), fun h => absurd h hc',
+          fun e' he => by cases he; exact ⟨herr _ rfl, rfl⟩⟩
   · next hsb =>
     cases h
-    exact ⟨rfl, [], by simp, Or.inl rfl, fun h => absurd h hsb, fun _ => rfl, fun e he => by cases he⟩
+    exact ⟨rfl, [], [], by simp, by simp, Or.inl rfl, fun h => absurd h hsb, fun _ => ⟨rfl, rfl⟩, fun e he => by cases he⟩
 
 theorem writeFile_shape (p content : Bytes) {s s1 : DState} {r : Except Exn Unit}
     (h : (writeFile p content).run s = (r, s1)) :
@@ -1231,14 +1462,15 @@ theorem permissionCallback_shape (nm : Nat) (perm : PermResult) (p : Bytes) {s s
 
 theorem writeNow_shape (o : Options) (out : Bytes) (perm : PermResult) (sb : Bool) (content : Bytes) (nm : Nat)
     {s s' : DState} {r : Except Exn Unit} (h : (writeNow o out perm sb content nm).run s = (r, s')) :
-    s'.cwd = s.cwd ∧ ∃ W B C, s'.trace = s.trace ++ W ++ B ++ C ∧
+    s'.cwd = s.cwd ∧ ∃ W M B C, s'.trace = s.trace ++ W ++ M ++ B ++ C ∧
       (W = [] ∨ ∃ m, W = [FsOp.chmod (absPath s out) m]) ∧
+      (∀ op ∈ M, ∃ d ∈ dirPrefixes (backupName o out), op = FsOp.mkdir (absPath s d)) ∧
       (B = [] ∨ B = [FsOp.rename (absPath s out) (absPath s (backupName o out))] ∨
         B = [FsOp.creat (absPath s (backupName o out))]) ∧
       (C = [] ∨ ∃ C', C = FsOp.creat (absPath s out) :: C' ∧
         ∀ op ∈ C', (∃ b, op = FsOp.write (absPath s out) b) ∨ ∃ m, op = FsOp.chmod (absPath s out) m) ∧
       (sb = true → s.backedUp.contains (backupName o out) = false → B = [] → C = []) ∧
-      (sb = false ∨ s.backedUp.contains (backupName o out) = true → B = []) ∧
+      (sb = false ∨ s.backedUp.contains (backupName o out) = true → M = [] ∧ B = []) ∧
       (r = .ok () → C ≠ []) ∧ (∀ e, r = .error e → e = .systemError) := by
   unfold writeNow at h
   rw [run_bind] at h
@@ -1248,8 +1480,9 @@ theorem writeNow_shape (o : Options) (out : Bytes) (perm : PermResult) (sb : Boo
     rw [run_bind] at h
     split at h
     · next _ s2 h2 =>
-      obtain ⟨c2, B, t2, hB, hB1, hB2, -⟩ := backupStep_shape _ _ _ h2
+      obtain ⟨c2, M, B, t2, hM, hB, hB1, hB2, -⟩ := backupStep_shape _ _ _ h2
       rw [absPath_cwd c1, absPath_cwd c1] at hB
+      simp only [absPath_cwd c1] at hM
       rw [b1] at hB1 hB2
       rw [run_bind] at h
       split at h
@@ -1259,7 +1492,7 @@ theorem writeNow_shape (o : Options) (out : Bytes) (perm : PermResult) (sb : Boo
         rw [absPath_cwd (c2.trans c1)] at hC1
         rw [absPath_cwd (c3.trans (c2.trans c1))] at hC2
         have hne := hne rfl
-        refine ⟨c4.trans (c3.trans (c2.trans c1)), W, B, C1 ++ C2, ?_, hW, hB, ?_, ?_, hB2, ?_, herr⟩
+        refine ⟨c4.trans (c3.trans (c2.trans c1)), W, M, B, C1 ++ C2, ?_, hW, hM, hB, ?_, ?_, hB2, ?_, herr⟩
         · rw [t4, t3, t2, t1]; simp only [List.append_assoc]
         · rcases hC1 with h | ⟨C', rfl, hC'⟩
           · exact absurd h hne
@@ -1278,7 +1511,7 @@ theorem writeNow_shape (o : Options) (out : Bytes) (perm : PermResult) (sb : Boo
         cases h
         obtain ⟨c3, C1, t3, hC1, -, herr⟩ := writeFile_shape _ _ h3
         rw [absPath_cwd (c2.trans c1)] at hC1
-        refine ⟨c3.trans (c2.trans c1), W, B, C1, ?_, hW, hB, ?_, ?_, hB2, fun he => (by cases he), fun e he => (by cases he; exact herr _ rfl)⟩
+        refine ⟨c3.trans (c2.trans c1), W, M, B, C1, ?_, hW, hM, hB, ?_, ?_, hB2, fun he => (by cases he), fun e he => (by cases he; exact herr _ rfl)⟩
         · rw [t3, t2, t1]
         · rcases hC1 with h | ⟨C', rfl, hC'⟩
           · exact Or.inl h
@@ -1287,16 +1520,17 @@ theorem writeNow_shape (o : Options) (out : Bytes) (perm : PermResult) (sb : Boo
           exact absurd hb (hB1 hsb hn rfl)
     · next e s2 h2 =>
       cases h
-      obtain ⟨c2, B, t2, hB, -, hB2, herr⟩ := backupStep_shape _ _ _ h2
+      obtain ⟨c2, M, B, t2, hM, hB, -, hB2, herr⟩ := backupStep_shape _ _ _ h2
       rw [absPath_cwd c1, absPath_cwd c1] at hB
+      simp only [absPath_cwd c1] at hM
       rw [b1] at hB2
-      refine ⟨c2.trans c1, W, B, [], ?_, hW, hB, Or.inl rfl, fun _ _ _ => rfl, hB2, fun he => (by cases he),
+      refine ⟨c2.trans c1, W, M, B, [], ?_, hW, hM, hB, Or.inl rfl, fun _ _ _ => rfl, hB2, fun he => (by cases he),
         fun e he => (by cases he; exact (herr _ rfl).1)⟩
       rw [t2, t1]; simp
   · next e s1 h1 =>
     cases h
     obtain ⟨c1, -, W, t1, hW, herr⟩ := makeWritable_shape _ _ h1
-    refine ⟨c1, W, [], [], ?_, hW, Or.inl rfl, Or.inl rfl, fun _ _ _ => rfl, fun _ => rfl, fun he => (by cases he),
+    refine ⟨c1, W, [], [], [], ?_, hW, by simp, Or.inl rfl, Or.inl rfl, fun _ _ _ => rfl, fun _ => ⟨rfl, rfl⟩, fun he => (by cases he),
       fun e he => (by cases he; exact (herr _ rfl).1)⟩
     rw [t1]; simp
 
@@ -1309,12 +1543,18 @@ abbrev NoChmod (op : FsOp) : Prop := ∀ p m, op ≠ FsOp.chmod p m
     re-creation of `p` itself -/
 def isBk (p : Bytes) (op : FsOp) : Prop := (∃ b, op = FsOp.rename p b) ∨ ∃ b, op = FsOp.creat b
 
-/-- every `chmod p` among `ops` comes after a `creat p` (the permission callback after the write), or is directly followed by the
-    backup / creation it prepares, or — only if `dangling` — is the very last operation -/
+/-- every `chmod p` among `ops` comes after a `creat p` (the permission callback after the write), or is followed — with only
+    `mkdir`s in between: the directories of a backup name like `bak/…` that do not exist yet — by the backup / creation it
+    prepares, or — only if `dangling` — is followed by such `mkdir`s only, up to the end.
+
+    CHANGED with the model change "`Backup::make_backup_for` creates the directories of the backup name": it was "is DIRECTLY
+    followed by the backup / creation" (`ops[i + 1]? = some op ∧ isBk p op`), resp. "is the very last operation"
+    (`i + 1 = ops.length`); see `C17.chmod_directly_false`. -/
 def ChmodLate (dangling : Prop) (ops : List FsOp) : Prop :=
   ∀ i p m, ops[i]? = some (FsOp.chmod p m) →
-    (∃ j, j < i ∧ ops[j]? = some (FsOp.creat p)) ∨ (∃ op, ops[i + 1]? = some op ∧ isBk p op) ∨
-    (dangling ∧ i + 1 = ops.length)
+    (∃ j, j < i ∧ ops[j]? = some (FsOp.creat p)) ∨
+    (∃ k op, ops[i + 1 + k]? = some op ∧ isBk p op ∧ ∀ j, j < k → ∃ q, ops[i + 1 + j]? = some (FsOp.mkdir q)) ∨
+    (dangling ∧ ∀ j, i < j → j < ops.length → ∃ q, ops[j]? = some (FsOp.mkdir q))
 
 theorem ChmodLate.of_noChmod {d : Prop} {ops : List FsOp} (h : ∀ op ∈ ops, NoChmod op) : ChmodLate d ops := by
   intro i p m hi
@@ -1329,52 +1569,77 @@ theorem ChmodLate.mono {d : Prop} {ops : List FsOp} (h : ChmodLate False ops) : 
   · exact .inr (.inl x)
   · exact f.elim
 
+theorem getElem?_lt_of_some {α} {l : List α} {i : Nat} {x : α} (h : l[i]? = some x) : i < l.length := by
+  rcases Nat.lt_or_ge i l.length with h' | h'
+  · exact h'
+  · rw [List.getElem?_eq_none h'] at h; cases h
+
 theorem ChmodLate.append {d : Prop} {a b : List FsOp} (ha : ChmodLate False a) (hb : ChmodLate d b) :
     ChmodLate d (a ++ b) := by
   intro i p m hi
   by_cases hlt : i < a.length
   · rw [List.getElem?_append_left hlt] at hi
-    rcases ha i p m hi with ⟨j, hj, e⟩ | ⟨op, e, hop⟩ | ⟨f, _⟩
+    rcases ha i p m hi with ⟨j, hj, e⟩ | ⟨k, op, e, hop, hmk⟩ | ⟨f, _⟩
     · exact .inl ⟨j, hj, by rw [List.getElem?_append_left (by omega)]; exact e⟩
-    · have h1 : i + 1 < a.length := by
-        rcases Nat.lt_or_ge (i + 1) a.length with h | h
-        · exact h
-        · rw [List.getElem?_eq_none h] at e; cases e
-      exact .inr (.inl ⟨op, by rw [List.getElem?_append_left h1]; exact e, hop⟩)
+    · have h1 : i + 1 + k < a.length := getElem?_lt_of_some e
+      refine .inr (.inl ⟨k, op, by rw [List.getElem?_append_left h1]; exact e, hop, fun j hj => ?_⟩)
+      obtain ⟨q, hq⟩ := hmk j hj
+      exact ⟨q, by rw [List.getElem?_append_left (by omega)]; exact hq⟩
     · exact f.elim
   · have hge : a.length ≤ i := by omega
     rw [List.getElem?_append_right hge] at hi
-    rcases hb _ p m hi with ⟨j, hj, e⟩ | ⟨op, e, hop⟩ | ⟨f, hl⟩
+    rcases hb _ p m hi with ⟨j, hj, e⟩ | ⟨k, op, e, hop, hmk⟩ | ⟨f, hl⟩
     · refine .inl ⟨j + a.length, by omega, ?_⟩
       rw [List.getElem?_append_right (by omega)]
       have : j + a.length - a.length = j := by omega
       rw [this]; exact e
-    · refine .inr (.inl ⟨op, ?_, hop⟩)
-      rw [List.getElem?_append_right (by omega)]
-      have : i + 1 - a.length = i - a.length + 1 := by omega
-      rw [this]; exact e
-    · exact .inr (.inr ⟨f, by rw [List.length_append]; omega⟩)
+    · refine .inr (.inl ⟨k, op, ?_, hop, fun j hj => ?_⟩)
+      · rw [List.getElem?_append_right (by omega)]
+        have : i + 1 + k - a.length = i - a.length + 1 + k := by omega
+        rw [this]; exact e
+      · obtain ⟨q, hq⟩ := hmk j hj
+        refine ⟨q, ?_⟩
+        rw [List.getElem?_append_right (by omega)]
+        have : i + 1 + j - a.length = i - a.length + 1 + j := by omega
+        rw [this]; exact hq
+    · refine .inr (.inr ⟨f, fun j hj hjl => ?_⟩)
+      rw [List.length_append] at hjl
+      obtain ⟨q, hq⟩ := hl (j - a.length) (by omega) (by omega)
+      exact ⟨q, by rw [List.getElem?_append_right (by omega)]; exact hq⟩
 
-theorem ChmodLate.cons_chmod {d : Prop} {q : Bytes} {m : Nat} {x : FsOp} {rest : List FsOp} (hx : isBk q x)
-    (h : ChmodLate d (x :: rest)) : ChmodLate d (FsOp.chmod q m :: x :: rest) := by
-  intro i p m' hi
+/-- one more operation in front: a `chmod` must be followed by `mkdir`s and then by what it prepares (or, dangling, by `mkdir`s only) -/
+theorem ChmodLate.cons {d : Prop} {x : FsOp} {l : List FsOp}
+    (hx : ∀ p m, x = FsOp.chmod p m →
+      (∃ (k : Nat) (op : FsOp), l[k]? = some op ∧ isBk p op ∧ ∀ j : Nat, j < k → ∃ q, l[j]? = some (FsOp.mkdir q)) ∨
+      (d ∧ ∀ j : Nat, j < l.length → ∃ q, l[j]? = some (FsOp.mkdir q)))
+    (h : ChmodLate d l) : ChmodLate d (x :: l) := by
+  intro i p m hi
   cases i with
   | zero =>
-    simp only [List.getElem?_cons_zero, Option.some.injEq, FsOp.chmod.injEq] at hi
-    obtain ⟨rfl, rfl⟩ := hi
-    exact .inr (.inl ⟨x, rfl, hx⟩)
+    simp only [List.getElem?_cons_zero, Option.some.injEq] at hi
+    rcases hx p m hi with ⟨k, op, e, hop, hmk⟩ | ⟨hd, hall⟩
+    · refine .inr (.inl ⟨k, op, ?_, hop, fun j hj => ?_⟩)
+      · have : 0 + 1 + k = k + 1 := by omega
+        rw [this, List.getElem?_cons_succ]; exact e
+      · have : 0 + 1 + j = j + 1 := by omega
+        rw [this, List.getElem?_cons_succ]; exact hmk j hj
+    · refine .inr (.inr ⟨hd, fun j hj hjl => ?_⟩)
+      obtain ⟨j', rfl⟩ : ∃ j', j = j' + 1 := ⟨j - 1, by omega⟩
+      rw [List.getElem?_cons_succ]
+      exact hall j' (by simp only [List.length_cons] at hjl; omega)
   | succ n =>
-    have hi' : (x :: rest)[n]? = some (FsOp.chmod p m') := by simpa using hi
-    rcases h n p m' hi' with ⟨j, hj, e⟩ | ⟨op, e, hop⟩ | ⟨f, hl⟩
+    have hi' : l[n]? = some (FsOp.chmod p m) := by simpa using hi
+    rcases h n p m hi' with ⟨j, hj, e⟩ | ⟨k, op, e, hop, hmk⟩ | ⟨f, hl⟩
     · exact .inl ⟨j + 1, by omega, by simpa using e⟩
-    · exact .inr (.inl ⟨op, by simpa using e, hop⟩)
-    · exact .inr (.inr ⟨f, by simp only [List.length_cons] at hl ⊢; omega⟩)
-
-theorem ChmodLate.single {q : Bytes} {m : Nat} : ChmodLate True [FsOp.chmod q m] := by
-  intro i p m' hi
-  cases i with
-  | zero => exact .inr (.inr ⟨trivial, rfl⟩)
-  | succ n => simp at hi
+    · refine .inr (.inl ⟨k, op, ?_, hop, fun j hj => ?_⟩)
+      · have : n + 1 + 1 + k = (n + 1 + k) + 1 := by omega
+        rw [this, List.getElem?_cons_succ]; exact e
+      · have : n + 1 + 1 + j = (n + 1 + j) + 1 := by omega
+        rw [this, List.getElem?_cons_succ]; exact hmk j hj
+    · refine .inr (.inr ⟨f, fun j hj hjl => ?_⟩)
+      obtain ⟨j', rfl⟩ : ∃ j', j = j' + 1 := ⟨j - 1, by omega⟩
+      rw [List.getElem?_cons_succ]
+      exact hl j' (by omega) (by simp only [List.length_cons] at hjl; omega)
 
 /-- after its `creat`, a file may be written and `chmod`ed at will -/
 theorem ChmodLate.created {q : Bytes} {C' : List FsOp}
@@ -1389,13 +1654,24 @@ theorem ChmodLate.created {q : Bytes} {C' : List FsOp}
     · cases e
       exact .inl ⟨0, by omega, rfl⟩
 
+theorem getElem?_of_all_mkdir {M : List FsOp} (hM : ∀ op ∈ M, ∃ q, op = FsOp.mkdir q) (rest : List FsOp) (j : Nat)
+    (hj : j < M.length) : ∃ q, (M ++ rest)[j]? = some (FsOp.mkdir q) := by
+  rw [List.getElem?_append_left hj]
+  obtain ⟨q, hq⟩ := hM M[j] (List.getElem_mem hj)
+  exact ⟨q, by rw [List.getElem?_eq_getElem hj, hq]⟩
 
-/-- the three blocks `W ++ B ++ C` of `writeNow_shape` -/
-theorem ChmodLate.of_shape {d : Prop} {q : Bytes} {W B C : List FsOp}
+/-- the blocks `W ++ M ++ B ++ C` of `writeNow_shape` -/
+theorem ChmodLate.of_shape {d : Prop} {q : Bytes} {W M B C : List FsOp}
     (hW : W = [] ∨ ∃ m, W = [FsOp.chmod q m])
+    (hM : ∀ op ∈ M, ∃ x, op = FsOp.mkdir x)
     (hB : B = [] ∨ ∃ x, B = [x] ∧ isBk q x)
     (hC : C = [] ∨ ∃ C', C = FsOp.creat q :: C' ∧ ∀ op ∈ C', (∃ b, op = FsOp.write q b) ∨ ∃ m, op = FsOp.chmod q m)
-    (hd : d ∨ C ≠ []) : ChmodLate d (W ++ B ++ C) := by
+    (hd : d ∨ C ≠ []) : ChmodLate d (W ++ M ++ B ++ C) := by
+  have lM : ChmodLate False M := by
+    refine ChmodLate.of_noChmod ?_
+    intro op hop
+    obtain ⟨x, rfl⟩ := hM op hop
+    exact fun _ _ => nofun
   have lB : ChmodLate False B := by
     rcases hB with rfl | ⟨x, rfl, hx⟩
     · exact ChmodLate.nil
@@ -1407,27 +1683,33 @@ theorem ChmodLate.of_shape {d : Prop} {q : Bytes} {W B C : List FsOp}
     rcases hC with rfl | ⟨C', rfl, h⟩
     · exact ChmodLate.nil
     · exact ChmodLate.created h
-  have lBC : ChmodLate False (B ++ C) := lB.append lC
-  rw [List.append_assoc]
+  have lMBC : ChmodLate False (M ++ (B ++ C)) := lM.append (lB.append lC)
+  rw [List.append_assoc, List.append_assoc]
   rcases hW with rfl | ⟨m, rfl⟩
-  · exact lBC.mono
-  · cases hBC : B ++ C with
+  · exact lMBC.mono
+  · show ChmodLate d (FsOp.chmod q m :: (M ++ (B ++ C)))
+    refine ChmodLate.cons ?_ lMBC.mono
+    intro p m' hpm
+    cases hpm
+    cases hBC : B ++ C with
     | nil =>
       have hCn : C = [] := (List.append_eq_nil_iff.1 hBC).2
       rcases hd with hd | hd
-      · intro i p m' hi
-        cases i with
-        | zero => exact .inr (.inr ⟨hd, rfl⟩)
-        | succ n => simp at hi
+      · refine .inr ⟨hd, fun j hj => ?_⟩
+        rw [List.append_nil] at hj ⊢
+        obtain ⟨x, hx⟩ := getElem?_of_all_mkdir hM [] j hj
+        exact ⟨x, by simpa using hx⟩
       · exact absurd hCn hd
     | cons x rest =>
-      rw [hBC] at lBC
-      refine (ChmodLate.cons_chmod ?_ lBC).mono
-      rcases hB with rfl | ⟨x', rfl, hx⟩
-      · rcases hC with rfl | ⟨C', rfl, _⟩
-        · cases hBC
-        · cases hBC; exact Or.inr ⟨_, rfl⟩
-      · cases hBC; exact hx
+      have hx : isBk q x := by
+        rcases hB with rfl | ⟨x', rfl, hx⟩
+        · rcases hC with rfl | ⟨C', rfl, _⟩
+          · cases hBC
+          · cases hBC; exact Or.inr ⟨_, rfl⟩
+        · cases hBC; exact hx
+      refine .inl ⟨M.length, x, ?_, hx, fun j hj => getElem?_of_all_mkdir hM _ j hj⟩
+      rw [List.getElem?_append_right (Nat.le_refl _), Nat.sub_self]
+      rfl
 
 def LateR (s s' : DState) : Prop := ∃ ops, s'.trace = s.trace ++ ops ∧ ChmodLate False ops
 def LateE (e : Exn) (s s' : DState) : Prop := ∃ ops, s'.trace = s.trace ++ ops ∧ ChmodLate (e = .systemError) ops
@@ -1450,8 +1732,9 @@ theorem writeNow_late (o : Options) (out : Bytes) (perm : PermResult) (sb : Bool
   have key : ∀ s s' r, (writeNow o out perm sb content nm).run s = (r, s') → ∀ d : Prop, (d ∨ r = .ok ()) →
       ∃ ops, s'.trace = s.trace ++ ops ∧ ChmodLate d ops := by
     intro s s' r h d hd
-    obtain ⟨-, W, B, C, t, hW, hB, hC, -, -, hok, -⟩ := writeNow_shape o out perm sb content nm h
-    refine ⟨W ++ B ++ C, by rw [t]; simp only [List.append_assoc], ChmodLate.of_shape hW ?_ hC (hd.imp id hok)⟩
+    obtain ⟨-, W, M, B, C, t, hW, hM, hB, hC, -, -, hok, -⟩ := writeNow_shape o out perm sb content nm h
+    refine ⟨W ++ M ++ B ++ C, by rw [t]; simp only [List.append_assoc],
+      ChmodLate.of_shape hW (fun op hop => let ⟨_, _, e⟩ := hM op hop; ⟨_, e⟩) ?_ hC (hd.imp id hok)⟩
     rcases hB with h | h | h
     · exact Or.inl h
     · exact Or.inr ⟨_, h, Or.inl ⟨_, rfl⟩⟩
@@ -1460,14 +1743,14 @@ theorem writeNow_late (o : Options) (out : Bytes) (perm : PermResult) (sb : Bool
   · intro s a s' h
     exact key s s' _ h False (Or.inr rfl)
   · intro s e s' h
-    obtain ⟨-, W, B, C, -, -, -, -, -, -, -, herr⟩ := writeNow_shape o out perm sb content nm h
+    obtain ⟨-, W, M, B, C, -, -, -, -, -, -, -, -, herr⟩ := writeNow_shape o out perm sb content nm h
     exact key s s' _ h _ (Or.inl (herr e rfl))
 
 
 theorem refuseToPatch_trExt {A : FsOp → Prop} (h1 : ∀ p, A (.mkdir p)) (h2 : ∀ p, A (.creat p)) (h3 : ∀ p b, A (.write p b))
     (o : Options) (f : Bytes) (p : Patch) : TrExt A (refuseToPatch o f p) := by
   have := ensureParentDirs_trExt h1
-  have := opCreat_trExt h2
+  have := openRejects_trExt h2
   have := opWrite_trExt h3
   unfold refuseToPatch; spec_walk (good_ext A)
 
@@ -1503,8 +1786,11 @@ macro_rules | `(tactic| nochmod_leaf) => `(tactic| with_reducible first
   | exact parseBodyM_trExt _ _
   | exact ensureParentDirs_trExt noChmod_mkdir _
   | exact writeFile_trExt noChmod_creat noChmod_write _ _
-  | exact makeBackupFor_trExt noChmod_rename noChmod_creat _ _
+  | exact makeBackupFor_trExt noChmod_mkdir noChmod_rename noChmod_creat _ _
   | exact removeFileAndEmptyParents_trExt noChmod_unlink noChmod_rmdir _
+  | exact removeNow_trExt noChmod_mkdir noChmod_rename noChmod_creat noChmod_unlink noChmod_rmdir _ _ _
+  | exact openRejects_trExt noChmod_creat _
+  | exact writeRejects_trExt noChmod_creat noChmod_write _ _
   | exact refuseToPatch_trExt noChmod_mkdir noChmod_creat noChmod_write _ _ _)
 
 syntax "late_leaf" : tactic
